@@ -253,6 +253,85 @@ func C18(p *ir.Program, r *report.R) {
 	}
 
 
+	// ---- the challenge hash is the hash of the whole input ---------------------------------------------
+	// hash.Hash.Sum(b) APPENDS the digest of what was written to b: handing it the data instead of writing
+	// the data first returns data||sha256("") and the "hash" is the first 32 input bytes (the low
+	// ephemeral key alone). In this package every Sum gets nil, and hash32 writes its whole input first.
+	{
+		n := 0
+		for _, f := range p.Funcs {
+			if f.Pkg == nil || ir.RelPkg(f.Pkg.Pkg) != "libs/p2p/conn" || f.Blocks == nil || strings.HasSuffix(p.Pos(f.Pos()), "_test.go") {
+				continue
+			}
+			for _, call := range ir.Calls(f, "hash.Hash.Sum") {
+				n++
+				written := false
+				for _, w := range ir.Calls(f, "hash.Hash.Write") {
+					if Arg(w, 0) == Arg(call, 0) && ir.Precedes(w.(ssa.Instruction), call.(ssa.Instruction)) {
+						written = true
+					}
+				}
+				r.Check("K11", "conn/"+f.Name()+"/digest-of-written-data", p.InstrPos(call.(ssa.Instruction)), Arg(call, 1) == "nil" && written, "Sum(nil) after Write(data) on the same hasher: Sum("+short(Arg(call, 1), 40)+")")
+			}
+		}
+		h := p.Func("libs/p2p/conn", "hash32")
+		okIn := false
+		for _, w := range ir.Calls(h, "hash.Hash.Write") {
+			if Arg(w, 1) == "input" {
+				okIn = true
+			}
+		}
+		r.Check("K11", "conn/hash32/hashes-its-input", p.Pos(h.Pos()), okIn && n >= 1, "hash32 writes its whole input into the hasher")
+	}
+
+	// ---- every channel reassembles in its own buffer ---------------------------------------------------------
+	// Packets of different channels interleave; a multi-packet message is collected in ch.recving until
+	// its EOF packet. Two channels sharing one backing array overwrite each other's partial messages.
+	{
+		eff := ir.DefaultEffects(p)
+		n := 0
+		for _, s := range p.Stores(p.Field("libs/p2p/conn", "Channel.recving")) {
+			if strings.HasSuffix(p.Pos(s.Fn.Pos()), "_test.go") || s.Val == nil {
+				continue
+			}
+			n++
+			v := ir.Render(s.Val)
+			own := eff.Fresh(s.Val) || v == "ch.recving[:0]" || strings.HasPrefix(v, "append(ch.recving,") || v == "nil"
+			r.Check("K4", "conn.Channel.recving/own-buffer/"+ir.FuncName(ir.EnclosingTop(s.Fn)), p.InstrPos(s.Instr), own, "ch.recving is a buffer allocated for this channel (or its own reslice/extension): "+short(v, 100))
+		}
+		r.Check("K4", "conn.Channel.recving/stores", "-", n >= 3, fmt.Sprintf("%d stores to Channel.recving (confirmed by hand: newChannel, append, reset)", n))
+	}
+
+	// ---- packets are decoded straight from the connection's buffered reader ------------------------------------
+	// ser.NewStream wraps a reader that is not an io.ByteReader in a NEW bufio.Reader on every call; its
+	// read-ahead beyond the current packet is thrown away with it. The reader handed to the packet decoder
+	// is the long-lived *bufio.Reader itself (static type with a ReadByte method), not a per-packet wrapper.
+	{
+		rr := p.Func("libs/p2p/conn", "MConnection.recvRoutine")
+		n := 0
+		ir.InstrsDeep(rr, func(_ *ssa.Function, in ssa.Instruction) {
+			call, ok := in.(ssa.CallInstruction)
+			if !ok || !strings.HasPrefix(ir.CalleeName(call), "ser.DecodeReader") {
+				return
+			}
+			n++
+			arg := operandArgs(call)[0]
+			if mi, ok := arg.(*ssa.MakeInterface); ok {
+				arg = mi.X
+			}
+			hasReadByte := false
+			ms := p.SSA.MethodSets.MethodSet(arg.Type())
+			for i := 0; i < ms.Len(); i++ {
+				if ms.At(i).Obj().Name() == "ReadByte" {
+					hasReadByte = true
+				}
+			}
+			r.Check("K5", "conn.(*MConnection).recvRoutine/decodes-from-the-buffered-reader", p.InstrPos(in), hasReadByte && Arg(call, 0) == "c.bufConnReader",
+				"the packet decoder reads from c.bufConnReader (an io.ByteReader: no per-call read-ahead buffer): "+short(Arg(call, 0), 80)+" of type "+arg.Type().String())
+		})
+		c.MustFind("K5", "conn.(*MConnection).recvRoutine/decode", rr, n, "ser.DecodeReader* call")
+	}
+
 	// ---- the unread remainder of a frame is the connection's own memory -------------------------------
 	// Read keeps what the caller's buffer could not take in sc.recvBuffer until the next Read: it must
 	// be memory nobody else writes in between (a fresh decode buffer, never a pooled or shared one).
